@@ -367,6 +367,9 @@ func zzH_C06_single_commit_validator(t *zzT) {
 	e.nextH = t.U32("params2.height")
 	t.Assume(e.nextH >= 1)
 	ws := []uint64{1, 1, 1}
+	// validator-set change between the two parameter records: each set may lack one validator
+	e.setA.absent = t.Choice("setA.absent", n+1) - 1
+	e.setB.absent = t.Choice("setB.absent", n+1) - 1
 	e.setParams(e.setA, 1, ws[:n])
 	e.setParams(e.setB, 1, ws[:n])
 	h := t.U32("commit.height")
@@ -442,7 +445,9 @@ func zzH_C06_single_commit_validator(t *zzT) {
 		}
 		validSig = t.And(validSig, counts[i] == want)
 	}
-	ok := t.And(malformed == 0 && !already && ownBlock && signer < n, t.And(h > e.removalHeight, t.And(t.Or(inRange, paramHeight), t.And(h <= e.tip, validSig))))
+	// active at the commit's height: member of the parameter set in force at h
+	active := t.Or(t.And(t.And(e.hasNext, h >= e.nextH), signer != e.setB.absent), t.And(!t.And(e.hasNext, h >= e.nextH), signer != e.setA.absent))
+	ok := t.And(t.And(malformed == 0 && !already && ownBlock && signer < n, active), t.And(h > e.removalHeight, t.And(t.Or(inRange, paramHeight), t.And(h <= e.tip, validSig))))
 	if added == 1 {
 		t.Assert(ok, "a single commit enters the pool only if it is well-formed, new, above the removal height, in the stored range or at a parameter-change height, for the own block, by an active validator and correctly signed")
 		t.Reach("added")
